@@ -4,7 +4,7 @@
    the rendered text (wf_render) and of the user's labels (labels_okb) pass.  Nothing about the parser's output or the
    emitter's chunk graph is assumed any more. *)
 From Coq Require Import List String Ascii ZArith NArith Lia Bool.
-From Pory Require Import Lexer Ast Parser Format Emitter Sem2 SemTgt Tr RenderCheck LabelSim C01Final Worklist WorkLabels C01Main ProgWf ProgSrc.
+From Pory Require Import Lexer Ast Parser Format Emitter Sem2 SemTgt Tr RenderCheck LabelSim C01Final Worklist WorkLabels WorkShape RenderFromSource C01Main ProgWf ProgSrc.
 Import ListNotations.
 Open Scope list_scope.
 
@@ -61,3 +61,66 @@ Proof.
   eapply compiled_scripts_correct; try eassumption. apply labels_ok_from_source; assumption.
 Qed.
 Print Assumptions compiled_scripts_correct_distinct_labels.
+
+(* C01 FROM THE SOURCE TEXT WITH NO VALIDATOR OF THE COMPILER'S WORK LEFT.  wf_render and labels_okb are theorems now
+   (RenderFromSource.v: worklist shape invariants, both chunk orders, label injectivity).  What remains are conditions on what the
+   AUTHOR wrote, all executable on the source / the emitted names: the labels of the script are pairwise distinct; names_okb
+   (an AutoVar command is not called end / return / goto, a goto names a label of the script or no label of the emitted
+   script, i.e. does not imitate a generated name); and a size bound that no real script approaches (fewer than 10^40
+   chunks: the model prints chunk ids with 40 decimal digits). *)
+Theorem compiled_scripts_correct_from_source
+  (St : Type) (exec : cmd -> St -> stepres St) (flag_set trainer_beaten : text -> St -> bool)
+  (cmp_var cmp_var_value : text -> text -> St -> comparison) (case_matches : text -> text -> St -> bool)
+  hl hd hs autovars switches ee fc cli_font cli_maxlen (src : text) (p : program) :
+  parse_program autovars switches ee (parse_format fc cli_font cli_maxlen ee) (lex hl hd hs src) = Parser.Ok p ->
+  forall body, In body (bodies_of (tops p)) ->
+  NoDup (dlabs body) ->
+  forall (mp : option text) (tl : list text) (name : text) (glob optimize : bool) (w : wst) (code : list instr),
+  emit_graph body = Emitter.Ok w ->
+  emit_script mp tl name glob optimize body = Emitter.Ok code ->
+  names_okb (finals w) code = true ->
+  (Z.of_nat (List.length (finals w)) <= 10 ^ 40)%Z ->
+  (forall n s, exists m,
+      run sfinal (sstep St exec flag_set trainer_beaten cmp_var cmp_var_value case_matches (fun l => fl_body l body Kstop)) n (enter body Kstop) s =
+      run (@tfinal) (tstep St exec flag_set trainer_beaten cmp_var cmp_var_value case_matches code) m (jump code name) s) /\
+  (forall m s, exists n,
+      res_le (run (@tfinal) (tstep St exec flag_set trainer_beaten cmp_var cmp_var_value case_matches code) m (jump code name) s)
+             (run sfinal (sstep St exec flag_set trainer_beaten cmp_var cmp_var_value case_matches (fun l => fl_body l body Kstop)) n (enter body Kstop) s)).
+Proof.
+  intros HP body HB ND mp tl name glob optimize w code HW HE NM SZ.
+  pose proof (accepted_bodies_are_src_ok hl hd hs autovars switches ee fc cli_font cli_maxlen src p HP) as A.
+  rewrite Forall_forall in A. destruct (A body HB) as [S _].
+  destruct (render_check_from_source mp tl name glob optimize body w code HW S HE ND SZ NM) as [WR LO].
+  eapply compiled_scripts_correct; eassumption.
+Qed.
+Print Assumptions compiled_scripts_correct_from_source.
+
+(* C05 from the source text: the two outputs (-optimize off / on) of every script body of every accepted program behave alike *)
+Theorem optimize_equiv_from_source
+  (St : Type) (exec : cmd -> St -> stepres St) (flag_set trainer_beaten : text -> St -> bool)
+  (cmp_var cmp_var_value : text -> text -> St -> comparison) (case_matches : text -> text -> St -> bool)
+  hl hd hs autovars switches ee fc cli_font cli_maxlen (src : text) (p : program) :
+  parse_program autovars switches ee (parse_format fc cli_font cli_maxlen ee) (lex hl hd hs src) = Parser.Ok p ->
+  forall body, In body (bodies_of (tops p)) ->
+  NoDup (dlabs body) ->
+  forall (mp : option text) (tl : list text) (name : text) (glob : bool) (w : wst) (code0 code1 : list instr),
+  emit_graph body = Emitter.Ok w ->
+  emit_script mp tl name glob false body = Emitter.Ok code0 ->
+  emit_script mp tl name glob true body = Emitter.Ok code1 ->
+  names_okb (finals w) code0 = true -> names_okb (finals w) code1 = true ->
+  (Z.of_nat (List.length (finals w)) <= 10 ^ 40)%Z ->
+  (forall m s, exists m', res_le (run (@tfinal) (tstep St exec flag_set trainer_beaten cmp_var cmp_var_value case_matches code0) m (jump code0 name) s)
+                                 (run (@tfinal) (tstep St exec flag_set trainer_beaten cmp_var cmp_var_value case_matches code1) m' (jump code1 name) s)) /\
+  (forall m s, exists m', res_le (run (@tfinal) (tstep St exec flag_set trainer_beaten cmp_var cmp_var_value case_matches code1) m (jump code1 name) s)
+                                 (run (@tfinal) (tstep St exec flag_set trainer_beaten cmp_var cmp_var_value case_matches code0) m' (jump code0 name) s)).
+Proof.
+  intros HP body HB ND mp tl name glob w code0 code1 HW H0 H1 N0 N1 SZ.
+  destruct (compiled_scripts_correct_from_source St exec flag_set trainer_beaten cmp_var cmp_var_value case_matches
+              hl hd hs autovars switches ee fc cli_font cli_maxlen src p HP body HB ND mp tl name glob false w code0 HW H0 N0 SZ) as [F0 B0].
+  destruct (compiled_scripts_correct_from_source St exec flag_set trainer_beaten cmp_var cmp_var_value case_matches
+              hl hd hs autovars switches ee fc cli_font cli_maxlen src p HP body HB ND mp tl name glob true w code1 HW H1 N1 SZ) as [F1 B1].
+  split; intros m s.
+  - destruct (B0 m s) as (n & R). destruct (F1 n s) as (m' & E). exists m'. rewrite <- E. exact R.
+  - destruct (B1 m s) as (n & R). destruct (F0 n s) as (m' & E). exists m'. rewrite <- E. exact R.
+Qed.
+Print Assumptions optimize_equiv_from_source.
